@@ -15,8 +15,14 @@ import (
 	"github.com/shutter-network/shutter/shlib/puredkg"
 	"github.com/shutter-network/shutter/shlib/shcrypto"
 
+	obskeyper "github.com/shutter-network/rolling-shutter/rolling-shutter/chainobserver/db/keyper"
+	"github.com/shutter-network/rolling-shutter/rolling-shutter/gnosisaccessnode"
 	"github.com/shutter-network/rolling-shutter/rolling-shutter/keyper/database"
 	"github.com/shutter-network/rolling-shutter/rolling-shutter/keyper/epochkghandler"
+	"github.com/shutter-network/rolling-shutter/rolling-shutter/keyperimpl/gnosis"
+	gnosisdb "github.com/shutter-network/rolling-shutter/rolling-shutter/keyperimpl/gnosis/database"
+	"github.com/shutter-network/rolling-shutter/rolling-shutter/keyperimpl/shutterservice"
+	servicedb "github.com/shutter-network/rolling-shutter/rolling-shutter/keyperimpl/shutterservice/database"
 	"github.com/shutter-network/rolling-shutter/rolling-shutter/medley/broker"
 	"github.com/shutter-network/rolling-shutter/rolling-shutter/medley/db"
 	"github.com/shutter-network/rolling-shutter/rolling-shutter/medley/identitypreimage"
@@ -48,6 +54,16 @@ func (c cCfg) GetAddress() common.Address       { return c.addr }
 func (c cCfg) GetInstanceID() uint64            { return cInstanceID }
 func (c cCfg) GetMaxNumKeysPerMessage() uint64  { return c.maxKey }
 
+type flavour int
+
+const (
+	flCore flavour = iota
+	flGnosis
+	flService
+)
+
+func (f flavour) String() string { return [...]string{"core", "gnosis", "service"}[f] }
+
 type dbFaults struct {
 	stmtErr  int // permille per request
 	connErr  int
@@ -71,6 +87,13 @@ type cNode struct {
 	deferFn func()
 	faults  dbFaults
 	gated   bool
+	// flavour specific
+	sender  p2p.Messaging // what the KeyShareHandler sends through (messaging or flavour middleware)
+	gcfg    *gnosis.Config
+	gkpr    *gnosis.Keyper
+	scfg    *shutterservice.Config
+	skpr    *shutterservice.Keyper
+	access  bool // Gnosis access node (no database, keys topic only)
 }
 
 type worldC struct {
@@ -87,6 +110,8 @@ type worldC struct {
 	tasks int // running harness task goroutines
 	// provision, if set, replaces the default eon provisioning of addNode
 	provision func(nd *cNode)
+	fl        flavour
+	accessNodes []*cNode
 }
 
 func sqlKey(req *pgsim.Request) string {
@@ -157,7 +182,14 @@ func (w *worldC) addNode(name string, idx int, state dkgState, extra func(nd *cN
 	if err != nil {
 		r.InfraFail("pgsim pool: %v", err)
 	}
-	if err := db.InitDB(nd.ctx, nd.pool, database.Definition.Name()+"-sim", database.Definition); err != nil {
+	def := database.Definition
+	switch w.fl {
+	case flGnosis:
+		def = gnosisdb.Definition
+	case flService:
+		def = servicedb.Definition
+	}
+	if err := db.InitDB(nd.ctx, nd.pool, def.Name()+"-sim", def); err != nil {
 		r.InfraFail("InitDB: %v", err)
 	}
 	if w.provision != nil {
@@ -166,18 +198,54 @@ func (w *worldC) addNode(name string, idx int, state dkgState, extra func(nd *cN
 		w.provisionEon(nd, state)
 	}
 	nd.msg = p2p.VerifNewMessaging()
-	nd.msg.AddMessageHandler(
+	nd.sender = nd.msg
+	coreHandlers := []p2p.MessageHandler{
 		epochkghandler.NewDecryptionKeyHandler(nd.cfg, nd.pool),
 		epochkghandler.NewDecryptionKeyShareHandler(nd.cfg, nd.pool),
 		epochkghandler.NewEonPublicKeyHandler(nd.cfg, nd.pool),
-	)
+	}
+	nd.trigger = make(chan *broker.Event[*epochkghandler.DecryptionTrigger])
+	// The flavours' Start registers its own handlers first, wraps the messaging in its
+	// middleware and lets the core register its handlers through the middleware; the same
+	// order is reproduced here (Start itself dials URLs and is not executed).
+	switch w.fl {
+	case flCore:
+		nd.msg.AddMessageHandler(coreHandlers...)
+	case flGnosis:
+		cfg := gnosis.NewConfig()
+		cfg.InstanceID = cInstanceID
+		cfg.MaxNumKeysPerMessage = nd.cfg.maxKey
+		cfg.Gnosis.Node.PrivateKey.Key = nd.key.Priv
+		cfg.Gnosis.EncryptedGasLimit = 100_000
+		cfg.Gnosis.MinGasPerTransaction = 21_000
+		cfg.Gnosis.MaxTxPointerAge = 2
+		cfg.Gnosis.SecondsPerSlot = 5
+		cfg.Gnosis.SlotsPerEpoch = 16
+		cfg.Gnosis.GenesisSlotTimestamp = 1665410700
+		nd.gcfg = cfg
+		nd.msg.AddMessageHandler(gnosis.VerifHandlers(nd.pool)...)
+		mw := gnosis.NewMessagingMiddleware(nd.msg, nd.pool, cfg)
+		mw.AddMessageHandler(coreHandlers...)
+		nd.sender = mw
+		nd.gkpr = gnosis.VerifNewKeyper(cfg, nd.pool, nd.trigger)
+	case flService:
+		cfg := shutterservice.NewConfig()
+		cfg.InstanceID = cInstanceID
+		cfg.MaxNumKeysPerMessage = nd.cfg.maxKey
+		cfg.Chain.Node.PrivateKey.Key = nd.key.Priv
+		nd.scfg = cfg
+		nd.msg.AddMessageHandler(shutterservice.VerifHandlers(nd.pool)...)
+		mw := shutterservice.NewMessagingMiddleware(nd.msg, nd.pool, cfg)
+		mw.AddMessageHandler(coreHandlers...)
+		nd.sender = mw
+		nd.skpr = shutterservice.VerifNewKeyper(cfg, nd.pool, nd.trigger, nil, nil)
+	}
 	if extra != nil {
 		extra(nd)
 	}
-	nd.trigger = make(chan *broker.Event[*epochkghandler.DecryptionTrigger])
 	ksh := &epochkghandler.KeyShareHandler{
 		InstanceID: cInstanceID, KeyperAddress: nd.cfg.addr, MaxNumKeysPerMessage: nd.cfg.maxKey,
-		DBPool: nd.pool, Messaging: nd.msg, Trigger: nd.trigger,
+		DBPool: nd.pool, Messaging: nd.sender, Trigger: nd.trigger,
 	}
 	nd.nn = w.net.Join(name, nd.ctx, nd.msg)
 	nd.group, nd.deferFn = service.RunBackground(nd.ctx, ksh, service.Function{Func: func(ctx context.Context, _ service.Runner) error {
@@ -211,6 +279,12 @@ func (w *worldC) provisionConfig(nd *cNode, kci, eon int64, state dkgState, memb
 	}
 	if err := q.InsertEon(ctx, database.InsertEonParams{Eon: eon, Height: 0, ActivationBlockNumber: 0, KeyperConfigIndex: kci}); err != nil {
 		r.InfraFail("InsertEon: %v", err)
+	}
+	// what the chain observer would have synced from the keyper set manager contract
+	if err := obskeyper.New(nd.pool).InsertKeyperSet(ctx, obskeyper.InsertKeyperSetParams{
+		KeyperConfigIndex: kci, ActivationBlockNumber: 0, Keypers: keypers, Threshold: int32(w.t),
+	}); err != nil {
+		r.InfraFail("InsertKeyperSet: %v", err)
 	}
 	insertResult := func(eon int64, success bool) {
 		var enc []byte
@@ -353,6 +427,12 @@ func (w *worldC) run(maxSteps int) bool {
 
 // close stops all nodes; parked requests are drained one at a time.
 func (w *worldC) close() {
+	for _, nd := range w.accessNodes {
+		nd.cancel()
+		if nd.deferFn != nil {
+			nd.deferFn()
+		}
+	}
 	for _, nd := range w.nodes {
 		nd.cancel()
 	}
@@ -391,4 +471,66 @@ func (nd *cNode) storedKeys() map[string][]byte {
 		out[string(id)] = k
 	}
 	return out
+}
+
+// addAccessNode adds a Gnosis access node: the real gnosisaccessnode handler
+// (keys topic only, in-memory storage fed with the eon key and keyper set).
+func (w *worldC) addAccessNode(name string) *cNode {
+	nd := &cNode{w: w, name: name, idx: -1, access: true}
+	nd.ctx, nd.cancel = context.WithCancel(context.Background())
+	st := gnosisaccessnode.NewStorage()
+	st.AddEonKey(uint64(w.kci), w.keys.EonPublicKey())
+	var keypers []string
+	for _, a := range w.addrs {
+		keypers = append(keypers, shdb.EncodeAddress(a))
+	}
+	st.AddKeyperSet(uint64(w.kci), &obskeyper.KeyperSet{KeyperConfigIndex: w.kci, ActivationBlockNumber: 0, Keypers: keypers, Threshold: int32(w.t)})
+	nd.msg = p2p.VerifNewMessaging()
+	nd.msg.AddMessageHandler(gnosisaccessnode.NewDecryptionKeysHandler(&gnosisaccessnode.Config{InstanceID: cInstanceID, MaxNumKeysPerMessage: 8}, st))
+	nd.nn = w.net.Join(name, nd.ctx, nd.msg)
+	nd.group, nd.deferFn = service.RunBackground(nd.ctx, service.Function{Func: func(ctx context.Context, _ service.Runner) error {
+		return nd.msg.VerifRunHandleMessages(ctx)
+	}})
+	w.accessNodes = append(w.accessNodes, nd)
+	return nd
+}
+
+// gnosisTx is one queued (sequencer) transaction, identical on all nodes.
+type gnosisTx struct {
+	prefix []byte
+	sender common.Address
+	gas    int64
+}
+
+func (t gnosisTx) identity() []byte { return append(append([]byte{}, t.prefix...), t.sender.Bytes()...) }
+
+// provisionGnosisQueue inserts the transaction queue as the sequencer syncer would.
+func (w *worldC) provisionGnosisQueue(nd *cNode, txs []gnosisTx, syncedBlock int64, syncedSlot int64) {
+	q := gnosisdb.New(nd.pool)
+	for i, t := range txs {
+		_, err := q.InsertTransactionSubmittedEvent(nd.ctx, gnosisdb.InsertTransactionSubmittedEventParams{
+			Index: int64(i), BlockNumber: 1, BlockHash: []byte{1}, TxIndex: int64(i), LogIndex: 0, Eon: w.kci,
+			IdentityPrefix: t.prefix, Sender: shdb.EncodeAddress(t.sender), GasLimit: t.gas,
+		})
+		if err != nil {
+			w.r.InfraFail("InsertTransactionSubmittedEvent: %v", err)
+		}
+	}
+	if err := q.SetTransactionSubmittedEventsSyncedUntil(nd.ctx, gnosisdb.SetTransactionSubmittedEventsSyncedUntilParams{BlockHash: []byte{2}, BlockNumber: syncedBlock, Slot: syncedSlot}); err != nil {
+		w.r.InfraFail("SetTransactionSubmittedEventsSyncedUntil: %v", err)
+	}
+}
+
+// triggerGnosisSlot runs the flavour's real triggerDecryption for a slot.
+func (w *worldC) triggerGnosisSlot(nd *cNode, slot uint64, nextBlock int64) {
+	var keypers []string
+	for _, a := range w.addrs {
+		keypers = append(keypers, shdb.EncodeAddress(a))
+	}
+	ks := &obskeyper.KeyperSet{KeyperConfigIndex: w.kci, ActivationBlockNumber: 0, Keypers: keypers, Threshold: int32(w.t)}
+	w.task(func() {
+		if err := nd.gkpr.VerifTriggerDecryption(nd.ctx, slot, nextBlock, ks); err != nil {
+			w.r.Eventf("%s triggerDecryption(slot=%d) error: %v", nd.name, slot, err)
+		}
+	})
 }
